@@ -62,9 +62,10 @@ func (d *dir) ReadDir(n int) ([]hackpadfs.DirEntry, error) {
 	if d.offset >= len(entries) {
 		return nil, io.EOF
 	}
-	end := d.offset + n
-	if end > len(entries) {
-		end = len(entries)
+	end := len(entries)
+	if n < end-d.offset {
+		// (not offset+n > len: the sum overflows for a huge n)
+		end = d.offset + n
 	}
 	entries = entries[d.offset:end]
 	d.offset = end
